@@ -115,6 +115,12 @@ def gen_regplan(rng, n, family=None, cfg=None):
                 args.append(ref(p))
             if rng.random() < 0.08:
                 deps.append(p)  # parallel plain dependency
+            if rng.random() < 0.1:
+                # the same value used twice by one call: f(x, x) or f(x, k=x)
+                if rng.random() < 0.5 or len(kwargs) >= len(KW):
+                    args.append(ref(p))
+                else:
+                    kwargs.append((KW[len(kwargs)], ref(p)))
         nd = ir.add("call", args=args, kwargs=kwargs, scope=_scope(rng), fname=f"fn{rng.randrange(4)}")
         for d in deps:
             ir.deps.append((d, nd.id))
@@ -296,6 +302,18 @@ class Session:
         H.post = post
         self.chain_of = {d: ch for ch in prod.values() for d in ch}
 
+    fresh_dt = None
+
+    def use_instants(self, T0, step, rng):
+        """Logical tick t denotes the instant T0 + t*step (epoch seconds); every store reports its modified time in its own representation
+        (naive local time with fold, aware UTC, aware fixed offset, aware zone) and fresh_time is handed over in a random one."""
+        from vmon.checks import c18
+
+        for st in self.stores.values():
+            rep = c18.rand_rep(rng)
+            st.dt_of = (lambda tick, rep=rep: c18.represent(T0 + tick * step, rep))
+        self.fresh_dt = lambda tick: c18.represent(T0 + tick * step, c18.rand_rep(rng, 0.4))
+
     def _mk_store(self, i, norm):
         # one store in four has a length (0 while empty): a falsy store object
         cls = vstore.SizedVStore if (self._seed + i * 7919) % 4 == 0 else vstore.VStore
@@ -435,7 +453,7 @@ class Session:
         for st in self.stores.values():
             st.reads_returned = []
         random.seed(seed & 0xFFFFFFFF)
-        fresh = None if fresh_tick is None else vstore.Clock.to_dt(fresh_tick)
+        fresh = None if fresh_tick is None else (self.fresh_dt(fresh_tick) if self.fresh_dt is not None else vstore.Clock.to_dt(fresh_tick))
         res = rec_run = None
         exc = None
         before = rec.thread_census()
